@@ -10,6 +10,7 @@ package main
 import (
 	"fmt"
 	"go/ast"
+	"go/build"
 	"go/parser"
 	"go/token"
 	"os"
@@ -18,6 +19,18 @@ import (
 	"strconv"
 	"strings"
 )
+
+// buildOK: the file is part of the package as the compiler sees it here (no test file; its build constraints — //go:build lines and
+// _GOOS / _GOARCH suffixes — are satisfied without extra tags, so verif_hooks.go is left out)
+func buildOK(dir string) func(os.FileInfo) bool {
+	return func(fi os.FileInfo) bool {
+		if strings.HasSuffix(fi.Name(), "_test.go") {
+			return false
+		}
+		ok, err := build.Default.MatchFile(dir, fi.Name())
+		return err == nil && ok
+	}
+}
 
 func must(err error) {
 	if err != nil {
@@ -38,7 +51,7 @@ func bytesLit(s string) string {
 // enumeration constants: name -> value, from `const ( A T = iota; B; C )` blocks
 func enumConsts(dir string) map[string]int {
 	fset := token.NewFileSet()
-	pkgs, err := parser.ParseDir(fset, dir, func(fi os.FileInfo) bool { return !strings.HasSuffix(fi.Name(), "_test.go") }, 0)
+	pkgs, err := parser.ParseDir(fset, dir, buildOK(dir), 0)
 	must(err)
 	res := map[string]int{}
 	for _, p := range pkgs {
@@ -164,8 +177,7 @@ func main() {
 		})
 	}
 	fset := token.NewFileSet()
-	pkgs, err := parser.ParseDir(fset, filepath.Join(repo, "v3", "report", "names"),
-		func(fi os.FileInfo) bool { return !strings.HasSuffix(fi.Name(), "_test.go") }, 0)
+	pkgs, err := parser.ParseDir(fset, filepath.Join(repo, "v3", "report", "names"), buildOK(filepath.Join(repo, "v3", "report", "names")), 0)
 	must(err)
 	titles := map[string]langMap{}
 	values := map[string]map[int]langMap{}
